@@ -666,6 +666,9 @@ class RemoteStreamFlowPath(
                 "test",
                 "-e",
                 '"$1"',
+                "-o",
+                "-L",
+                '"$1"',
                 "&&",
                 "printf",
                 "'%s\\n'",
@@ -677,7 +680,7 @@ class RemoteStreamFlowPath(
                 location=self.location, command=command, capture_output=True
             )
             _check_status(command, self.location, result, status)
-            for path in result.split():
+            for path in result.splitlines():
                 yield self.with_segments(path)
 
     async def is_dir(self) -> bool:
